@@ -183,6 +183,13 @@ func (s *c03Sys) Events() []clustermc.Ev {
 		evs = append(evs, clustermc.Ev{K: "balance", A: i})
 	}
 	evs = append(evs, clustermc.Ev{K: "compact"}, clustermc.Ev{K: "janitor"}, clustermc.Ev{K: "put-ttl", A: 2}, clustermc.Ev{K: "tick-evict"})
+	if s.P.Opts.ReadRepair {
+		// with read-repair a Get writes: reads are events of their own (first key, either member)
+		evs = append(evs, clustermc.Ev{K: "get", A: 0, B: 0})
+		if n > 1 {
+			evs = append(evs, clustermc.Ev{K: "get", A: 0, B: 1})
+		}
+	}
 	if s.P.Leaves && s.backupsComplete() {
 		evs = append(evs, clustermc.Ev{K: "leave", A: 1}, clustermc.Ev{K: "leave", A: 0})
 	}
@@ -192,7 +199,7 @@ func (s *c03Sys) Events() []clustermc.Ev {
 func (s *c03Sys) describe(e clustermc.Ev) string {
 	via := []string{"oldest member", "youngest member"}
 	switch e.K {
-	case "put", "del":
+	case "put", "del", "get":
 		return fmt.Sprintf("%s(key#%d via %s)", e.K, e.A, via[e.B])
 	case "balance":
 		return fmt.Sprintf("balancer-pass(member#%d)", e.A)
@@ -237,6 +244,22 @@ func (s *c03Sys) Apply(e clustermc.Ev) []clustermc.Fail {
 		delete(s.Ref, s.Keys[e.A])
 		delete(s.Exp, s.Keys[e.A])
 		delete(s.Expired, s.Keys[e.A])
+	case "get":
+		kv := s.kv(e.B)
+		if kv == nil {
+			return []clustermc.Fail{{Key: "client", What: "cannot open the DMap on a live member"}}
+		}
+		k := s.Keys[e.A]
+		r := kv.Get(k)
+		want := s.Ref[k]
+		switch {
+		case want == "" && r.Err == "":
+			return []clustermc.Fail{{Key: "get/deleted-key-readable", What: fmt.Sprintf("key %s was deleted (or never written) but Get returns %q", k, r.Val)}}
+		case want != "" && r.Err != "":
+			return []clustermc.Fail{{Key: "get/key-unreadable/" + strings.SplitN(r.Err, ":", 2)[0], What: fmt.Sprintf("key %s has the acknowledged value %q but Get fails with %q", k, want, r.Err)}}
+		case want != "" && string(r.Val) != want:
+			return []clustermc.Fail{{Key: "get/stale-value", What: fmt.Sprintf("key %s has the acknowledged value %q but Get returns %q", k, want, r.Val)}}
+		}
 	case "join":
 		idx := 0
 		for _, m := range s.Cl.Members {
@@ -477,16 +500,19 @@ func c03Specs(tier string) []*clustermc.Spec {
 	type cf struct {
 		n0, r, table int
 		leaves       bool
+		rr           bool
 	}
-	cfs := []cf{{1, 1, 1 << 16, false}, {2, 2, 128, true}, {1, 2, 128, false}}
+	cfs := []cf{{1, 1, 1 << 16, false, false}, {2, 2, 128, true, false}, {1, 2, 128, false, false},
+		// read-repair on: a Get during a hand-over writes to the members it found stale
+		{2, 2, 1 << 16, false, true}, {1, 1, 128, false, true}}
 	depth, maxN := 6, 3
 	if !quick {
 		depth = 8
-		cfs = append(cfs, cf{1, 1, 128, false}, cf{2, 1, 1 << 16, false}, cf{2, 2, 1 << 16, true})
+		cfs = append(cfs, cf{1, 1, 128, false, false}, cf{2, 1, 1 << 16, false, false}, cf{2, 2, 1 << 16, true, false})
 	}
 	// three replicas: a backup partition has two current owners, a join changes the closest-3 set
 	// and a backup fragment is handed to BOTH of them; explored from 3 to 4 members, less deep
-	cfs = append(cfs, cf{3, 3, 128, false})
+	cfs = append(cfs, cf{3, 3, 128, false, false})
 	var out []*clustermc.Spec
 	for _, c := range cfs {
 		depth, maxN := depth, maxN
@@ -497,7 +523,10 @@ func c03Specs(tier string) []*clustermc.Spec {
 			depth, maxN, parts = depth-3, 4, 7
 		}
 		p := &c03Params{Name: fmt.Sprintf("N0=%d R=%d table=%d leaves=%v", c.n0, c.r, c.table, c.leaves), Depth: depth, MaxN: maxN, Leaves: c.leaves, Background: c.r == 3,
-			Opts: simcluster.Opts{N: c.n0, Replicas: c.r, WriteQ: 1, ReadQ: 1, Partitions: parts, TableSize: c.table}}
+			Opts: simcluster.Opts{N: c.n0, Replicas: c.r, WriteQ: 1, ReadQ: 1, Partitions: parts, TableSize: c.table, ReadRepair: c.rr}}
+		if c.rr {
+			p.Name += " read-repair"
+		}
 		proto := &c03Sys{P: p}
 		out = append(out, &clustermc.Spec{
 			Name: p.Name, Depth: depth,
